@@ -85,19 +85,22 @@ def yieldEvent (a : Scan) : Scan :=
   if evt.isEmpty then { a with evt := evt, dataBuf := none }
   else { a with evt := {}, dataBuf := none, out := a.out ++ [evt] }
 
+/-- The field `k` with (trimmed) value `v` applied to the event being collected. -/
+def applyField (a : Scan) (k v : Bytes) : Scan :=
+  if k = sse_eventKey then { a with evt := { a.evt with name := v } }
+  else if k = sse_idKey then { a with evt := { a.evt with id := v } }
+  else if k = sse_retryKey then { a with evt := { a.evt with retry := v } }
+  else if k = sse_dataKey then
+    { a with dataBuf := some (match a.dataBuf with
+        | none => v
+        | some d => d ++ [LF] ++ v) }
+  else a
+
 /-- A non-empty line: `key:value` dispatch. -/
 def procLine (a : Scan) (line : Bytes) : Scan :=
   match cutColon line with
   | none => { a with malformed := true }
-  | some (k, v) =>
-    if k = sse_eventKey then { a with evt := { a.evt with name := trim v } }
-    else if k = sse_idKey then { a with evt := { a.evt with id := trim v } }
-    else if k = sse_retryKey then { a with evt := { a.evt with retry := trim v } }
-    else if k = sse_dataKey then
-      { a with dataBuf := some (match a.dataBuf with
-          | none => trim v
-          | some d => d ++ [LF] ++ trim v) }
-    else a
+  | some (k, v) => applyField a k (trim v)
 
 /-- A complete line (terminated by LF; not at EOF). -/
 def stepLine (a : Scan) (raw : Bytes) : Scan :=
